@@ -834,6 +834,30 @@ pub fn judge(case: &ThrCase, out: &RunOut, prop: Prop) -> R<CaseReport> {
             }
         }
     }
+    // C04/C01: a subscriber obtained from subscribe() is ready only for updates made after it:
+    // if every notifying write had *responded* before subscribe() was even invoked (or there is
+    // none), no later poll of that subscriber may yield an item
+    for srec in out.recs.iter().filter(|r| matches!(r.kind, Kind::Subscribe { .. })) {
+        let Kind::Subscribe { sub, .. } = &srec.kind else { continue };
+        let write_after = out.recs.iter().any(|w| {
+            let is_write = matches!(w.kind, Kind::Set { .. } | Kind::Update { .. } | Kind::WriteSec { .. }) || matches!(w.kind, Kind::SetIfNotEq { prev: Some(_), .. });
+            is_write && w.res > srec.inv
+        });
+        if !write_after {
+            for p in out.recs.iter().filter(|r| r.inv > srec.res) {
+                if let Kind::Poll { sub: ps, res: PR::Item(v), .. } = &p.kind {
+                    if ps == sub {
+                        rep.checks += 1;
+                        return fail(
+                            prop,
+                            &[C04, C01],
+                            format!("subscriber {sub} was created by subscribe() after the last update had completed, yet a later poll yielded {v} ({})", sched()),
+                        );
+                    }
+                }
+            }
+        }
+    }
     // C04: guard sections
     for r in &out.recs {
         match &r.kind {
